@@ -545,5 +545,8 @@ fn main() {
     rep.sample(json!({"space": "Vec3A/unary/F32_ALL", "index": 0x3F00_0000u32, "lanes_bits": [phi(0, 0x3F00_0000), phi(1, 0x3F00_0000), phi(2, 0x3F00_0000)], "ops": ["round", "floor", "ceil", "trunc", "fract", "fract_gl"]}));
     rep.sample(json!({"space": "Vec4/binary/SPECIAL^2 x lane-isolation", "case": "lane 2 = (-2.5, 0.5), other lanes background 0", "ops": "add..rem (+ref/assign/scalar forms), min,max,copysign,div_euclid,rem_euclid,cmp*,==,powf"}));
     rep.sample(json!({"space": "DVec3/ternary/SMALL^3", "case": "mul_add(1e200, 1e200, -inf), clamp, abs_diff_eq, Sum/Product len 0..3"}));
+    // every operator trait impl of the tree (inventory from the rustdoc JSON): reference, assign and
+    // scalar forms agree with the by-value form decided above
+    harness::opforms::run(&mut rep, "fvec", harness::opforms::OPFORMS_FVEC);
     std::process::exit(rep.finish());
 }
